@@ -1,2 +1,2 @@
-/* fid: addr-of-struct-rvalue (fixed c22baea); msg: '&' operand is not an lvalue or function designator */
+/* fid: addr-of-struct-rvalue (fixed fcded40); msg: '&' operand is not an lvalue or function designator */
 struct S {int a;}; struct S g(void); void f(void){ &g(); }
